@@ -47,7 +47,9 @@ def kind_text(k, name="doc"):
         "frontmatter_ext": '---\nmyst:\n  enable_extensions: [html_image, deflist]\n  heading_anchors: 1\n---\n\n<img src="a.png" alt="y">\n\nterm\n: def\n\n# H\n',
         "anchors": "# Anchor title\n\n## Sub\n\n## Sub\n\n[](#sub-1)\n",
         "footnotes": "x [^a] [^b]\n\n[^b]: two\n\n[^a]: one\n",
-        "figure_md": "```{figure-md} fig-" + name + "\n![alt](a.png)\n\ncaption text\n```\n",
+        # (with front matter: the document then has its own, file-level configuration object)
+        "figure_md": "---\nmyst:\n  footnote_transition: false\n---\n\n```{figure-md} fig-" + name + "\n![alt](a.png)\n\ncaption text\n```\n",
+        "figure_md_plain": "```{figure-md} figp-" + name + "\n![alt](a.png)\n\ncaption text\n```\n",
         "figure_md_fail": "```{figure-md}\nnot an image\n```\n",
         "xlink": "# X\n\n[](anchors_doc.md#sub-1) and [t](anchors_doc.md#sub)\n",
     }[k]
@@ -151,7 +153,7 @@ def run(ctx):
                         "the schedule is imposed from outside the code under test (env-before-read-docs handler; substituted make_chunks)"]
     base = {"Kinds": set(KINDS), "MaxHist": 2 if quick else 3, "Docs": {"d1"}, "MaxWorkers": 1, "DocKind": "<-DocKindV", "Part": "history",
             "DevIncludeSpecMutation": False, "DevSharedExtensionSet": False, "DevEnvAttribute": False}
-    bdocs = [("figdoc", "figure_md"), ("imgdoc", "html_img"), ("anchors_doc", "anchors"), ("xdoc", "xlink")]
+    bdocs = [("figdoc", "figure_md"), ("imgdoc", "html_img"), ("anchors_doc", "anchors"), ("xdoc", "xlink"), ("fig2", "figure_md_plain")]
     dk = {"DocKindV": "(" + " @@ ".join(f'"{n}" :> "{k}"' for n, k in bdocs) + ")"}
     invs = ["NonInterference", "StateUntouched", "ScheduleIndependent", "MergedComplete", "Emit"]
     rh = tlc.run("Session", tlc.cfg(ctx, "s_hist.cfg", base, invariants=invs, properties=["Terminates"]), wd=ctx.wd, timeout=3000, defs=dk, coverage=True)
@@ -236,6 +238,9 @@ def run(ctx):
     if not serial.get("ok"):
         ctx.violation(f"serial Sphinx build failed: {serial.get('error')}", {"leg": "R-schedule", "schedule": "serial"})
         serial = None
+    elif any(k == "html_img" and serial["docs"][n]["abs"] != "raw" for n, k in bdocs):
+        ctx.violation("serial build: a raw <img> document (html_image not enabled) is rendered as an image: it depends on the documents read before it",
+                      {"leg": "R-schedule", "schedule": "serial", "documents": {n: kind_text(k, n) for n, k in bdocs}})
     scheds = []
     for rec in rb.records:
         order = [a[0] for a in rec["assign"]]
@@ -248,7 +253,9 @@ def run(ctx):
             seen.add(key)
             uniq.append(s)
     if quick:
-        uniq = [s for n, s in enumerate(uniq) if len(s[1]) >= 2 and n % 4 == 0][:40]
+        uniq = [s for s in uniq if len(s[1]) >= 2]
+        rnd.shuffle(uniq)
+        uniq = uniq[:40]
     jobs = [(str(ctx.wd / f"b_{n}"), bdocs, order, chunks if len(chunks) > 1 else None) for n, (order, chunks) in enumerate(uniq)]
     bouts = pmap(_build_job, jobs, procs=8, chunksize=1)
     for (order, chunks), o in zip(uniq, bouts):
@@ -257,6 +264,11 @@ def run(ctx):
         ctx.traces_validated += 1
         if not o.get("ok"):
             ctx.violation(f"Sphinx build under schedule order={order} chunks={chunks} failed: {o.get('error')}", case)
+            continue
+        bad_abs = [n for n, k in bdocs if k == "html_img" and o["docs"][n]["abs"] != "raw"]
+        if bad_abs:
+            ctx.violation(f"document {bad_abs[0]} (a raw <img>, html_image not enabled) is rendered as '{o['docs'][bad_abs[0]]['abs']}' under read order {order}, chunks {chunks}: "
+                          "it depends on what the same process read before", case)
             continue
         if serial is None:
             continue
